@@ -352,6 +352,9 @@ class EngineBase:
             for i, t in enumerate(ty[1]):
                 out += self.typed_refs(dt.accessor(0, i)(term), t)
             return out
+        if ty[0] == "opt":
+            dt = opt_dt(ty)
+            return self.typed_refs(dt.accessor(1, 0)(term), ty[1])
         return []
 
     def born_before(self, arr, bound, key=None):
@@ -368,7 +371,7 @@ class EngineBase:
                 el = z3.Select(z3.Select(arr, x), i)
                 for rt, cn in self.typed_refs(el, ety):
                     out.append(z3.ForAll([x, i], z3.Or(rt == NULL, subclass(cls_of(rt), cls_const(cn))), patterns=[el]))
-            elif ty[0] in ("ref", "tup"):
+            elif ty[0] in ("ref", "tup", "opt"):
                 el = z3.Select(arr, x)
                 for rt, cn in self.typed_refs(el, ty):
                     out.append(z3.ForAll([x], z3.Or(rt == NULL, subclass(cls_of(rt), cls_const(cn))), patterns=[el]))
